@@ -65,6 +65,7 @@ class Outcome(object):
         self.t_ops = []          # (t_start, t_end) virtual
         self.tmpdir = None
         self.extra = {}
+        self.op_streams = []     # per op: Stream objects opened while it ran
 
     def host_packets(self):
         out = []
@@ -295,7 +296,17 @@ async def run_op_async(dev, op, i, out):
     raise env.HarnessError("unknown op %r" % name)
 
 
-def _record(out, i, fn_result=None, exc=None, t0=None):
+def _nstreams(out):
+    return sum(len(s.streams) for s in out.sims)
+
+
+def _streams_since(out, n0):
+    allst = [st for s in out.sims for st in s.streams]
+    return allst[n0:]
+
+
+def _record(out, i, fn_result=None, exc=None, t0=None, n0=0):
+    out.op_streams.append(_streams_since(out, n0))
     if exc is None:
         out.results.append({"ok": fn_result})
         out.excs.append(None)
@@ -325,38 +336,40 @@ def run(scn, async_=None, lock_factory=None, keep_tmp=False, before_op=None):
         if out.api == "sync":
             for i, op in enumerate(ops):
                 t0 = out.clock.time()
+                n0 = _nstreams(out)
                 if before_op:
                     before_op(out, i, op)
                 try:
                     r = run_op_sync(out.device, op, i, out)
                 except Watchdog as w:
                     out.watchdog = (i, str(w))
-                    _record(out, i, exc=w, t0=t0)
+                    _record(out, i, exc=w, t0=t0, n0=n0)
                     break
                 except env.HarnessError:
                     raise
                 except Exception as e:  # noqa
-                    _record(out, i, exc=e, t0=t0)
+                    _record(out, i, exc=e, t0=t0, n0=n0)
                 else:
-                    _record(out, i, r, t0=t0)
+                    _record(out, i, r, t0=t0, n0=n0)
         else:
             async def main():
                 for i, op in enumerate(ops):
                     t0 = out.clock.time()
+                    n0 = _nstreams(out)
                     if before_op:
                         before_op(out, i, op)
                     try:
                         r = await run_op_async(out.device, op, i, out)
                     except Watchdog as w:
                         out.watchdog = (i, str(w))
-                        _record(out, i, exc=w, t0=t0)
+                        _record(out, i, exc=w, t0=t0, n0=n0)
                         break
                     except env.HarnessError:
                         raise
                     except Exception as e:  # noqa
-                        _record(out, i, exc=e, t0=t0)
+                        _record(out, i, exc=e, t0=t0, n0=n0)
                     else:
-                        _record(out, i, r, t0=t0)
+                        _record(out, i, r, t0=t0, n0=n0)
             asyncio.run(main())
     finally:
         if out.tmpdir and not keep_tmp:
